@@ -18,6 +18,7 @@ RULE = ('Hypothesis draws (key from 25 pooled signing keys incl. signing subkeys
         'empty, key expiration, key server, key-server flags, primary, revocation reason+comment, intended recipients, issuer-fingerprint off, with '
         'ASCII and non-ASCII text); direction forward (PGPy signs) or backward (reference signs). Non-trivial: >=1 optional hashed subpacket beyond '
         'creation time / issuer fingerprint, or a non-document kind; distinct by (direction, kind, algorithm, hash, option names, subject class).')
+RULE += ' expires= is also given in its datetime form; backward kinds include a 0x30 signature that revokes a direct-key signature.'
 ASSUMPTIONS = ['refpgp.sig is an independent implementation of RFC 4880 5.2.3/5.2.4 sharing only hashlib and the cryptography primitives with PGPy',
                'RIPEMD-160 signing is unavailable in this cryptography build for both sides and is reported as rejected configuration']
 
